@@ -48,6 +48,9 @@ type Cfg struct {
 	// scheduler
 	FSYields bool    `json:"fs_yields,omitempty"`
 	UnlockYields bool `json:"unlock_yields,omitempty"`
+	// RecoverFirst: the preload of a concurrent run is executed in an earlier session that ends in a process
+	// crash; the run itself starts with the recovering Open (segment metadata rebuilt by recovery)
+	RecoverFirst bool `json:"recover_first,omitempty"`
 	Sticky   int     `json:"sticky,omitempty"`
 	TickProb float64 `json:"tick_prob,omitempty"`
 	SchedSeed int64  `json:"sched_seed,omitempty"`
@@ -183,7 +186,7 @@ func pick(rng *rand.Rand, w map[string]int, order []string) string {
 	return order[0]
 }
 
-var opOrder = []string{"put", "del", "get", "geta", "has", "count", "items", "sync", "compact", "close", "filesize"}
+var opOrder = []string{"put", "del", "get", "geta", "has", "count", "items", "sync", "compact", "close", "filesize", "itemsc"}
 
 // GenCfg draws the per-run configuration (swarm style).
 func GenCfg(rng *rand.Rand) Cfg {
@@ -240,6 +243,8 @@ func GenSeqOps(rng *rand.Rand, cfg Cfg, g GenOpts, idBase *int) []Op {
 			}
 		case "del", "get", "has":
 			op.Key = rng.Intn(cfg.NKeys)
+		case "itemsc":
+			op.Size = 1 + rng.Intn(8)
 		case "geta":
 			op.Key = rng.Intn(cfg.NKeys)
 			op.Size = []int{0, 0, 1, 5, 100}[rng.Intn(5)]
